@@ -17,6 +17,7 @@ func genCfg(t *rapid.T) Config {
 	cfg.RichLits = rapid.Bool().Draw(t, "rich")
 	cfg.Bitops = rapid.Bool().Draw(t, "bitops")
 	cfg.StringCalls = rapid.Bool().Draw(t, "strcalls")
+	cfg.BlockReturn = rapid.Bool().Draw(t, "blockret")
 	cfg.Patterns = rapid.Bool().Draw(t, "patterns")
 	return cfg
 }
